@@ -26,8 +26,11 @@ HEADER = "From Coq Require Import ZArith List String.\nFrom Bardic Require Impor
 # ----------------------------------------------------------------------------------------------
 # host stories.  Every line is (ctx, text): ctx is the context in which a line INSERTED BEFORE this
 # line is parsed: pre (before the first passage), body (top level of a passage), py (inside @py),
-# if (inside an @if branch), for (inside a @for body), join (inside the block of a `-> @join` choice).
+# if (inside an @if branch), for (inside a @for body), join (inside the block of a `-> @join` choice),
+# "-" (no insertion before this line: it continues a `~` statement that spans several lines).
 # The last element gives the context of a line appended at the end.
+# A scenario file may also be a plain `str`: the exact bytes of a file that is only ever *included* (empty,
+# whitespace-only, no final newline, ...); such files stand before the construct, never carry it.
 # ----------------------------------------------------------------------------------------------
 
 HOST_PLAIN = [
@@ -83,6 +86,98 @@ HOST_BLOCKS = [
     ("body", None),
 ]
 
+# `-> @join` choice blocks whose indented bodies hold `#` comment lines, blank lines, `~` statements and
+# text lines in every order (comment first / between content / after a blank / last; an empty block)
+HOST_JOIN = [
+    ("pre", ":: Start"),
+    ("body", "~ gold = 3"),
+    ("body", "Intro text."),
+    ("body", "+ [First] -> @join"),
+    ("join", "    # a comment opens the block"),
+    ("join", "    You chose first."),
+    ("join", "    # a comment between two content lines"),
+    ("join", "    ~ gold = gold + 1"),
+    ("join", ""),
+    ("join", "    Gold is {gold}."),
+    ("join", "    # a comment closes the block"),
+    ("join", "+ {gold > 1} [Second] -> @join"),
+    ("join", "    Second text."),
+    ("join", ""),
+    ("join", "    # a comment after a blank line"),
+    ("join", "    # and another one"),
+    ("join", "    ~ gold = 0"),
+    ("join", "    More second text."),
+    ("join", "* [Third] -> @join"),
+    ("join", "@join"),
+    ("body", "After the join."),
+    ("body", "+ [Fourth] -> @join"),
+    ("join", "    ~ gold = 9"),
+    ("join", "    # a comment after a statement"),
+    ("join", "    Fourth text."),
+    ("join", "@join"),
+    ("body", "Final text."),
+    ("body", "+ [Done] -> End"),
+    ("body", ""),
+    ("body", ":: Shop(item, count=1)"),
+    ("body", "A shop with {item}."),
+    ("body", ""),
+    ("body", ":: End"),
+    ("body", "Bye."),
+    ("body", None),
+]
+
+# structure BEFORE the construct: comment and blank lines (before the first passage, at top level, inside
+# @if / @else / @for bodies), `~` statements spanning several lines, an @py block with comments and blanks
+HOST_STRUCT = [
+    ("pre", "# a comment before the first passage"),
+    ("pre", ""),
+    ("pre", ":: Start"),
+    ("body", "# a comment at top level"),
+    ("body", ""),
+    ("body", "~ data = ["),
+    ("-", "    1,"),
+    ("-", "    2,"),
+    ("-", "]"),
+    ("body", "Text {data}"),
+    ("body", "@py:"),
+    ("py", "gold = 1"),
+    ("py", "# a python comment"),
+    ("py", ""),
+    ("py", "other = 2"),
+    ("py", "@endpy"),
+    ("body", "@if gold:"),
+    ("if", "    # a comment in a branch"),
+    ("if", ""),
+    ("if", "    Text in a branch."),
+    ("if", "    ~ other = {"),
+    ("-", '        "a": 1,'),
+    ("-", "    }"),
+    ("if", "    More text."),
+    ("if", "@else:"),
+    ("if", "    # a comment in the other branch"),
+    ("if", "    Other."),
+    ("if", "@endif"),
+    ("body", "@for n in data:"),
+    ("for", "    # a comment in a loop"),
+    ("for", ""),
+    ("for", "    Loop {n}"),
+    ("for", "    ~ other = ["),
+    ("-", "        n,"),
+    ("-", "    ]"),
+    ("for", "    Loop end."),
+    ("for", "@endfor"),
+    ("body", "# a comment before the choices"),
+    ("body", "+ [Done] -> End"),
+    ("body", ""),
+    ("body", "# a comment between passages"),
+    ("body", ":: Shop(item, count=1)"),
+    ("body", "A shop with {item}."),
+    ("body", ""),
+    ("body", ":: End"),
+    ("body", "Bye."),
+    ("body", None),
+]
+
 MAIN_INC = [
     ("pre", ":: Start"),
     ("body", "Main text."),
@@ -126,12 +221,84 @@ DEEP = [
     ("body", None),
 ]
 
-# scenario: name -> (entry file, {relative path: host})
+
+# files that contribute (almost) nothing, included BEFORE the file / line that carries the construct
+HOLLOW_FILES = {
+    "empty.bard": "",                                   # zero bytes
+    "nl.bard": "\n",                                    # a single newline
+    "blank.bard": "   \n\t\n  \n",                      # whitespace only
+    "sub/hollow.bard": "@include ../empty.bard",        # only an @include of an empty file, no final newline
+    "sub/hollow_nl.bard": "@include ../nl.bard\n",      # only an @include of a one-newline file
+    "sub/hollow_blank.bard": "  @include ../blank.bard\n\n",
+    "note.bard": "# nothing here yet\n",                # a comment only
+    "tail.bard": "A line without a final newline.",     # content, but the file does not end in a newline
+}
+HOLLOW_KINDS = {"empty": "empty.bard", "newline": "nl.bard", "blank": "blank.bard", "include-only": "sub/hollow.bard",
+                "include-only-nl": "sub/hollow_nl.bard", "include-only-blank": "sub/hollow_blank.bard",
+                "comment-only": "note.bard", "no-final-newline": "tail.bard"}
+
+MAIN_HOLLOW = [
+    ("pre", "@include empty.bard"),
+    ("pre", ":: Start"),
+    ("body", "Main text."),
+    ("body", "@include empty.bard"),
+    ("body", "After the empty file."),
+    ("body", "@include blank.bard"),
+    ("body", "@include nl.bard"),
+    ("body", "After the blank files."),
+    ("body", "@include sub/hollow.bard"),
+    ("body", "+ [Inc] -> Chapter"),
+    ("body", "+ [End] -> End"),
+    ("body", "@include sub/hollow_nl.bard"),
+    ("body", "@include note.bard"),
+    ("body", "@include chapter.bard"),
+    ("body", "Text after the chapter."),
+    ("body", "@include sub/hollow_blank.bard"),
+    ("body", ""),
+    ("body", ":: Shop(item, count=1)"),
+    ("body", "A shop with {item}."),
+    ("body", "@include tail.bard"),
+    ("body", ""),
+    ("body", ":: End"),
+    ("body", "Fin."),
+    ("body", None),
+]
+
+CHAPTER = [
+    ("body", "@include sub/hollow.bard"),
+    ("body", ":: Chapter"),
+    ("body", "Chapter text."),
+    ("body", "@include empty.bard"),
+    ("body", "+ [Back] -> Start"),
+    ("body", "@include blank.bard"),
+    ("body", ":: ChapterTwo"),
+    ("body", "More text {1 + 1}."),
+    ("body", "-> End"),
+    ("body", None),
+]
+
+
+def hollow_one(kind):
+    """One kind of hollow file included before the rest of the including file and before a later file."""
+    f = HOLLOW_KINDS[kind]
+    main = [("pre", ":: Start"), ("body", "Main text."), ("body", "@include " + f), ("body", "After it."),
+            ("body", "+ [Inc] -> Chapter"), ("body", "+ [End] -> End"), ("body", "@include chapter.bard"),
+            ("body", ""), ("body", ":: Shop(item, count=1)"), ("body", "A shop with {item}."), ("body", ""),
+            ("body", ":: End"), ("body", "Fin."), ("body", None)]
+    chapter = [("body", ":: Chapter"), ("body", "Chapter text."), ("body", "+ [Back] -> Start"), ("body", None)]
+    return ("main.bard", dict({"main.bard": main, "chapter.bard": chapter}, **HOLLOW_FILES))
+
+# scenario: name -> (entry file, {relative path: host or raw text})
 SCENARIOS = {
     "plain": ("main.bard", {"main.bard": HOST_PLAIN}),
     "blocks": ("main.bard", {"main.bard": HOST_BLOCKS}),
     "include": ("main.bard", {"main.bard": MAIN_INC, "inc.bard": INC, "sub/deep.bard": DEEP}),
+    "join": ("main.bard", {"main.bard": HOST_JOIN}),
+    "struct": ("main.bard", {"main.bard": HOST_STRUCT}),
+    "hollow": ("main.bard", dict({"main.bard": MAIN_HOLLOW, "chapter.bard": CHAPTER}, **HOLLOW_FILES)),
 }
+# the single-file scenarios added for what stands before the construct run in two entry modes in the quick tier
+TWO_MODES_QUICK = ("join", "struct")
 
 # ----------------------------------------------------------------------------------------------
 # diagnosable constructs: kind -> (lines to insert, offset of the offending line among them, a fragment
@@ -210,7 +377,14 @@ INDENTED_CTX = {"if": "    ", "for": "    ", "join": "    "}
 
 
 def host_text(host):
+    """The lines of a scenario file (for a raw file: its lines, a final newline not counted as a line)."""
+    if isinstance(host, str):
+        return host[:-1].split("\n") if host.endswith("\n") else (host.split("\n") if host else [])
     return [t for _, t in host if t is not None]
+
+
+def file_bytes(host):
+    return host if isinstance(host, str) else "\n".join(host_text(host)) + "\n"
 
 
 def place(host, pos, kind, rel="main.bard"):
@@ -284,16 +458,19 @@ class Oracle:
         self.outcomes = {}          # (kind@ctx, outcome) -> count
         self.by_scn = {}
         self.tried = 0
+        self.raw = {}
+        self.hosts_rejected = []
 
     def close(self):
         shutil.rmtree(self.root, ignore_errors=True)
 
     def write(self, files):
+        """files: relative path -> list of lines (written with a final newline) or raw text (written as is)."""
         for rel, lines in files.items():
             p = os.path.join(self.root, rel)
             os.makedirs(os.path.dirname(p), exist_ok=True)
-            with open(p, "w", encoding="utf-8") as f:
-                f.write("\n".join(lines) + "\n")
+            with open(p, "w", encoding="utf-8", newline="") as f:
+                f.write(lines if isinstance(lines, str) else "\n".join(lines) + "\n")
 
     def compile(self, mode, files, entry):
         from bardic.compiler.compiler import BardCompiler
@@ -325,6 +502,7 @@ class Oracle:
         finally:
             if mode == "file":
                 self.write({rel: host_text(hosts[rel])})
+        self.raw = {r: h for r, h in hosts.items() if isinstance(h, str)}
         # the label names the mechanism: `pre` differs from `body` only in not being inside a passage, and
         # @include / @start lines are handled before (or regardless of) any block structure
         label = kind if ctx in ("body", "pre") or kind.startswith(("include-", "start-")) else f"{kind}@{ctx}"
@@ -390,19 +568,34 @@ class Oracle:
             self.chk.sample({"kind": "construct", "scenario": scn, "construct@context": label, "outcome": outcome})
 
     def replay(self, scn, mode, rel, pos, kind, files, msg):
-        return {"kind": "construct", "scenario": scn, "mode": mode, "file": rel, "position": pos,
-                "construct": kind, "files": files, "message": msg[:1500]}
+        out = {"kind": "construct", "scenario": scn, "mode": mode, "file": rel, "position": pos,
+               "construct": kind, "files": files, "message": msg[:1500]}
+        if self.raw:        # files that are not "lines + final newline": their exact text
+            out["exact_text_of_included_only_files"] = self.raw
+        return out
 
     def run_all(self):
         for scn, (entry, hosts) in self.scenarios.items():
             # the three entry modes on the single-file base scenarios; variants and include graphs by file
             modes = ["string", "parse-named", "file"] if len(hosts) == 1 and "~" not in scn else ["file"]
-            self.write({r: host_text(h) for r, h in hosts.items()})
+            if self.chk.tier == "quick" and scn in TWO_MODES_QUICK:
+                modes = ["string", "file"]
+            self.write({r: (h if isinstance(h, str) else host_text(h)) for r, h in hosts.items()})
             for mode in modes:
+                # the host itself is a valid story: a diagnostic here would blind every placement on it
+                exc, msg = self.compile(mode, {r: host_text(h) for r, h in hosts.items()}, entry)
+                if exc is not None:
+                    self.hosts_rejected.append(f"{scn}/{mode}")
+                    self.chk.disagree("host-rejected", f"the valid host story of scenario {scn} ({mode}) is rejected: "
+                                      f"{exc}: {msg[:300]}", {"scenario": scn, "mode": mode, "message": msg[:1500],
+                                                              "files": {r: file_bytes(h) for r, h in hosts.items()}})
+                    continue
                 for rel, host in hosts.items():
-                    if mode != "file" and rel != entry:
+                    if isinstance(host, str) or (mode != "file" and rel != entry):
                         continue
                     for pos in range(len(host)):
+                        if host[pos][0] == "-":
+                            continue
                         for kind in CONSTRUCTS:
                             if kind.startswith("include-") and mode != "file":  # only resolve_includes sees them
                                 continue
@@ -411,9 +604,11 @@ class Oracle:
                 os.remove(os.path.join(self.root, rel))
 
 
-FILLER = {"pre": ["", "# note"], "body": ["", "# note", "Plain filler text."], "py": ["# note", "pass"],
-          "if": ["", "    # note", "    Filler in a branch."], "for": ["", "    # note", "    Filler in a loop."],
-          "join": ["", "    Filler in a choice block."]}
+FILLER = {"pre": ["", "# note"], "body": ["", "# note", "Plain filler text.", "~ filler = [\n    1,\n]"],
+          "py": ["# note", "pass", ""],
+          "if": ["", "    # note", "    Filler in a branch.", "    ~ filler = 1"],
+          "for": ["", "    # note", "    Filler in a loop.", "    ~ filler = 1"],
+          "join": ["", "    # note", "    Filler in a choice block.", "    ~ filler = 1"]}
 
 
 def vary(host, rng, n):
@@ -423,10 +618,26 @@ def vary(host, rng, n):
     for _ in range(n):
         pos = rng.randrange(len(h))
         ctx = h[pos][0]
-        if ctx == "pre" and pos == 0 and rng.random() < 0.5:
+        if ctx == "-" or (ctx == "pre" and pos == 0 and rng.random() < 0.5):
             continue
-        h.insert(pos, (ctx, rng.choice(FILLER[ctx])))
+        fill = rng.choice(FILLER[ctx]).split("\n")      # a filler of several lines is one `~` statement
+        h[pos:pos] = [(ctx if k == 0 else "-", t) for k, t in enumerate(fill)]
     return h
+
+
+def hollow_vary(hosts, rng, n):
+    """The include graph with n @include lines of hollow files put at random top-level positions of its files."""
+    out = {}
+    for rel, host in hosts.items():
+        h = list(host)
+        up = "../" * rel.count("/")
+        for _ in range(n):
+            pos = rng.randrange(len(h))
+            if h[pos][0] not in ("pre", "body"):
+                continue
+            h.insert(pos, (h[pos][0], "@include " + up + rng.choice(sorted(HOLLOW_FILES))))
+        out[rel] = h
+    return dict(out, **HOLLOW_FILES)
 
 
 def scenarios_for(tier, rng):
@@ -435,7 +646,18 @@ def scenarios_for(tier, rng):
         for name, (entry, hosts) in SCENARIOS.items():
             if tier == "quick" and name == "plain":
                 continue
-            scns[f"{name}~{v}"] = (entry, {r: (vary(h, rng, rng.randint(2, 6))) for r, h in hosts.items()})
+            if tier == "quick" and name in ("join", "struct", "hollow"):
+                continue
+            scns[f"{name}~{v}"] = (entry, {r: (h if isinstance(h, str) else vary(h, rng, rng.randint(2, 6)))
+                                           for r, h in hosts.items()})
+    # one kind of hollow file at a time (the quick tier draws two kinds; `hollow` has all of them together)
+    kinds = sorted(HOLLOW_KINDS)
+    for kind in (rng.sample(kinds, 2) if tier == "quick" else kinds):
+        scns[f"hollow-{kind}"] = hollow_one(kind)
+    if tier != "quick":
+        for v in range(6):
+            entry, hosts = SCENARIOS["include"]
+            scns[f"include+hollow~{v}"] = (entry, hollow_vary(hosts, rng, rng.randint(1, 3)))
     return scns
 
 
@@ -612,7 +834,9 @@ def run(tier: str, seed: int) -> int:
         for o, n in d.items():
             totals[o] = totals.get(o, 0) + n
     chk.notes["oracle"] = {
-        "constructs": len(CONSTRUCTS), "scenarios": {k: {r: len(h) for r, h in v[1].items()} for k, v in scns.items()},
+        "constructs": len(CONSTRUCTS),
+        "scenarios": {k: {r: (repr(h) if isinstance(h, str) else len(h)) for r, h in v[1].items()} for k, v in scns.items()},
+        "hosts_rejected": orc.hosts_rejected,
         "placements_tried": orc.tried, "outcomes": totals, "per_scenario": orc.by_scn,
         "per_construct_and_context": {k: v for k, v in per_kind.items()
                                       if set(v) - {"accepted", "other-diagnostic"}},
